@@ -26,7 +26,7 @@ def apply(F):
     requires suite_ok::<A, Kdf>(),
     ensures
         /*@C18 C02*/ rng_stream::<R>(final(csprng)) == rng_stream::<R>(old(csprng)).skip({NSK} as int),
-        /*@C02 C01 C03 C08 C10 C13*/ ({{
+        /*@C02 C01 C03 C08 C10 C13 C15*/ ({{
             let sk_e = Kem::k_derive(rng_stream::<R>(old(csprng)).take({NSK} as int)).0;
             let e = Kem::k_encap(pk_recip.ser(), crate::kem::opt_pair_ser(mode.sender_keypair()), sk_e);
             &&& r is Ok <==> e is Some
@@ -40,7 +40,7 @@ def apply(F):
     F.contract([], r'pub fn setup_receiver<A, Kdf, Kem>', ret='r', clauses=f'''
     requires suite_ok::<A, Kdf>(),
     ensures
-        /*@C02 C01 C03 C08 C10 C13*/ ({{
+        /*@C02 C01 C03 C08 C10 C13 C15*/ ({{
             let d = Kem::k_decap(sk_recip.ser(), crate::kem::opt_ser(mode.sender_pk()), encapped_key.ser());
             &&& r is Ok <==> d is Some
             &&& r is Err ==> r == Err::<AeadCtxR<A, Kdf, Kem>, HpkeError>(HpkeError::DecapError)
